@@ -20,7 +20,7 @@ use serde::{Deserialize, Serialize};
 use std::io::{Read, Write};
 
 /// compare value fields of the parsed stream with the reference value encoding
-fn diff_values(parsed: &[PElem], ir: &[Elem], ts: Ts, path: &str) -> Result<(), (String, String)> {
+fn diff_values(parsed: &[PElem], ir: &[Elem], ts: Ts, path: &str, stream: &[u8]) -> Result<(), (String, String)> {
     if parsed.len() != ir.len() {
         return Err((
             "element-count".into(),
@@ -43,7 +43,7 @@ fn diff_values(parsed: &[PElem], ir: &[Elem], ts: Ts, path: &str) -> Result<(), 
                     return Err(("item-count".into(), format!("{here}: {} items on the wire, want {}", items.len(), iitems.len())));
                 }
                 for (i, (pi, ii)) in items.iter().zip(iitems).enumerate() {
-                    diff_values(&pi.elems, &ii.elems, ts, &format!("{here}[{i}]"))?;
+                    diff_values(&pi.elems, &ii.elems, ts, &format!("{here}[{i}]"), stream)?;
                 }
             }
             (PVal::Pix { bot, frags, .. }, Val::Pix { bot: ibot, frags: ifrags }) => {
@@ -81,6 +81,16 @@ fn diff_values(parsed: &[PElem], ir: &[Elem], ts: Ts, path: &str) -> Result<(), 
                             &want[want.len().saturating_sub(12)..]
                         ),
                     ));
+                }
+            }
+            (PVal::Seq(_), Val::U8(want)) if !ts.explicit() && p.declared_len != ds::UNDEFINED => {
+                // Implicit VR: the parser's sequence hint is per tag; this occurrence is an unknown-tag
+                // defined-length sequence held as UN bytes (see conv::degrade_unknown_explicit_seqs):
+                // compare the raw value field
+                let a = p.offset + 8;
+                let raw = &stream[a..a + p.declared_len as usize];
+                if raw != &want[..] {
+                    return Err(("value-bytes:UN".into(), format!("{here}: UN-held sequence bytes differ")));
                 }
             }
             _ => return Err(("value-kind".into(), format!("{here}: value kind on the wire differs"))),
@@ -141,7 +151,7 @@ fn check_stream(c: &c01::Case, obs: &mut Obs) {
             );
         }
         Ok(parsed) => {
-            if let Err((k, d)) = diff_values(&parsed, &ir, enc, "") {
+            if let Err((k, d)) = diff_values(&parsed, &ir, enc, "", &bytes) {
                 obs.fail(format!("C04:value field differs:{k}"), format!("[{tsname}] {d}"));
             }
         }
@@ -224,7 +234,7 @@ fn check_file(c: &FileCase, obs: &mut Obs) {
             format!("[{tsname}] {e}"),
         ),
         Ok(parsed) => {
-            if let Err((k, d)) = diff_values(&parsed, &c.ds, enc, "") {
+            if let Err((k, d)) = diff_values(&parsed, &c.ds, enc, "", &body) {
                 obs.fail(format!("C04:file value field differs:{k}"), format!("[{tsname}] {d}"));
             }
         }
